@@ -293,9 +293,19 @@ static void *dequeue(thread_pool_t *interface)
 			if (out != NULL)
 				break;
 
+			/* after a worker failed, the workers shut down and
+			   the next item in sequence may never be finished;
+			   report "nothing more to get", the caller finds
+			   the reason through get_status() */
+			if (pool->status != 0)
+				break;
+
 			pthread_cond_wait(&pool->done_cond, &pool->mtx);
 		}
 		pthread_mutex_unlock(&pool->mtx);
+
+		if (out == NULL)
+			return NULL;
 	}
 
 	ptr = out->data;
